@@ -43,9 +43,9 @@ def lossy (kind era : String) : Bool :=
   match kind with
   | "blk" => era == "byron"
   | "hdr" => era != "dijkstra"
-  | "body" => era != "mary" && era != "dijkstra"
-  | "out" => era != "dijkstra"
-  | "wit" => ["shelley", "allegra", "mary", "alonzo", "conway"].contains era
+  | "body" => era != "mary"
+  | "out" => true
+  | "wit" => ["shelley", "allegra", "mary", "alonzo", "conway", "dijkstra"].contains era
   | _ => false
 
 def handle (line : String) : Out :=
